@@ -1,0 +1,17 @@
+//go:build verif
+// +build verif
+
+package runner
+
+// Verification hooks (build tag "verif"). Nothing here is compiled into normal builds.
+
+// VerifEventHook receives runner events at their linearization points. It may block
+// (the harness uses it as a gate). ev is one of RunEnter, RunRefused, RunExit,
+// CancelEnter, CancelSet, CancelExit; name is the task name ("" for Cancel events).
+var VerifEventHook func(r *TaskRunner, ev string, name string, err error)
+
+func verifEvent(r *TaskRunner, ev string, name string, err error) {
+	if h := VerifEventHook; h != nil {
+		h(r, ev, name, err)
+	}
+}
